@@ -517,7 +517,7 @@ Section Ref.
           | ChNA => ([], e, SNA)
           | ChE x => ([], e, SErr (err_of_merr x))
           | ChV v2 =>
-            let empty := is_nil v2 in
+            let empty := is_void v2 in
             let e1 := match ok with [] => e | _ => env_set ok (VBool (negb empty)) true e end in
             if empty then ([], e1, SNone) else ([], env_set var v2 true e1, SNone)
           end
